@@ -5,7 +5,9 @@ pub mod c04;
 pub mod c05;
 pub mod c06;
 pub mod pp;
+pub mod c07;
 pub mod c08;
+pub mod c09;
 pub mod c10;
 pub mod c11;
 pub mod c12;
@@ -13,10 +15,11 @@ pub mod c14;
 pub mod c15;
 pub mod c16;
 pub mod c18;
+pub mod c20;
 
 use crate::core::run::{Check, Tier};
 
-pub const ALL: &[&str] = &["C01", "C02", "C03", "C04", "C05", "C06", "C08", "C10", "C11", "C12", "C14", "C15", "C16", "C18"];
+pub const ALL: &[&str] = &["C01", "C02", "C03", "C04", "C05", "C06", "C07", "C08", "C09", "C10", "C11", "C12", "C14", "C15", "C16", "C18", "C20"];
 
 pub fn build(id: &str, tier: Tier) -> Option<Check<'static>> {
     Some(match id {
@@ -25,10 +28,13 @@ pub fn build(id: &str, tier: Tier) -> Option<Check<'static>> {
         "C15" => c15::build(tier),
         "C12" => c12::build(tier),
         "C08" => c08::build(tier),
+        "C07" => c07::build(tier),
         "C06" => c06::build(tier),
         "C11" => c11::build(tier),
         "C10" => c10::build(tier),
+        "C09" => c09::build(tier),
         "C18" => c18::build(tier),
+        "C20" => c20::build(tier),
         "C03" => c03::build(tier),
         "C04" => c04::build(tier),
         "C05" => c05::build(tier),
